@@ -14,5 +14,6 @@ func Forget(p *core.Program) {
 	cacheMu.Lock()
 	delete(effCache, p)
 	delete(pmCaches, p)
+	delete(reachCaches, p)
 	cacheMu.Unlock()
 }
